@@ -49,16 +49,16 @@ def stepLine (s : DSt) (t : List String) : DSt × String :=
     | some f, some ex, some rm, some rr, some c, some m, some k =>
       ({ s with defs := (f, ⟨[], rm, rr, c, m, k, ex⟩) :: s.defs.filter (fun p => p.1 != f) }, "ok")
     | _, _, _, _, _, _, _ => (s, "bad-op")
-  | ["st", f, "call", g, off, cx, ig, pv, ca] =>
-    match nat? f, nat? g, int? off, ctx? cx, bool? ig, bool? pv, bool? ca with
-    | some f, some g, some off, some cx, some ig, some pv, some ca =>
-      (updDef s f (fun d => { d with stmts := d.stmts ++ [.call g off cx ⟨ig, pv⟩ ca] }), "ok")
-    | _, _, _, _, _, _, _ => (s, "bad-op")
-  | ["st", f, "batch", g, offs, cx, ig, pv, rf] =>
-    match nat? f, nat? g, ints? offs, ctx? cx, bool? ig, bool? pv, bool? rf with
-    | some f, some g, some offs, some cx, some ig, some pv, some rf =>
-      (updDef s f (fun d => { d with stmts := d.stmts ++ [.batch g offs cx ⟨ig, pv⟩ rf] }), "ok")
-    | _, _, _, _, _, _, _ => (s, "bad-op")
+  | ["st", f, "call", g, off, cx, ig, pv, ca, gm, gr] =>
+    match nat? f, nat? g, int? off, ctx? cx, bool? ig, bool? pv, bool? ca, nat? gm, nat? gr with
+    | some f, some g, some off, some cx, some ig, some pv, some ca, some gm, some gr =>
+      (updDef s f (fun d => { d with stmts := d.stmts ++ [.call g off cx ⟨ig, pv⟩ ca (gm, gr)] }), "ok")
+    | _, _, _, _, _, _, _, _, _ => (s, "bad-op")
+  | ["st", f, "batch", g, offs, cx, ig, pv, rf, gm, gr] =>
+    match nat? f, nat? g, ints? offs, ctx? cx, bool? ig, bool? pv, bool? rf, nat? gm, nat? gr with
+    | some f, some g, some offs, some cx, some ig, some pv, some rf, some gm, some gr =>
+      (updDef s f (fun d => { d with stmts := d.stmts ++ [.batch g offs cx ⟨ig, pv⟩ rf (gm, gr)] }), "ok")
+    | _, _, _, _, _, _, _, _, _ => (s, "bad-op")
   | ["st", f, "res", h] =>
     match nat? f, nat? h with
     | some f, some h => (updDef s f (fun d => { d with stmts := d.stmts ++ [.resource h] }), "ok")
